@@ -334,7 +334,10 @@ Section DMON.
 
     Definition a_due s : list nat :=
       filter (fun k => dm_matches s k && a_ok k && a_fresh s k) dm_emits.
+    (* rule 14: once Close of a typed subscription has returned its channel is closed, so at a
+       quiescent point no receive on it is still outstanding *)
     Definition d_check_quiet (s : nat) : Z :=
+      if a_returned (TClose s) && negb (dm_wild s) && Nat.ltb (o_nread pre s) (o_nreq pre s) then 14 else
       if negb (a_returned (TSub s)) || a_started (TClose s) then 0 else
       if Nat.ltb (o_nread pre s + dm_cap s) (length (a_due s)) then 9
       else if Nat.ltb (o_nread pre s) (o_nreq pre s) &&
